@@ -1,6 +1,7 @@
 """
 This file is concerned with the extraction of objects given a path.
 """
+import datetime
 import importlib
 import inspect
 import logging
@@ -57,8 +58,19 @@ def _is_authorized_type(tpe: Type[Any], gctx: EvalMainContext) -> bool:
         return True
     if tpe in (int, float, str, bytes, PurePosixPath, FunctionType, ModuleType):
         return True
+    # The other plain values that can be hashed: their content is part of the signature.
+    if tpe in (
+        bool,
+        type(None),
+        datetime.datetime,
+        datetime.date,
+        datetime.time,
+        datetime.timedelta,
+        datetime.timezone,
+    ):
+        return True
     # Some specific structural types are more complex and can be user-controlled.
-    if get_option(accept_list_option) and tpe in (list,):
+    if get_option(accept_list_option) and tpe in (list, tuple):
         return True
     if get_option(accept_dict_option) and tpe in (dict, OrderedDict):
         return True
